@@ -11,6 +11,7 @@ CONSTANTS
   PosArgs <- R_PosArgs
   Back = 2
   AsFoundSetBits = FALSE
+  PosCount = "per_position"
 INVARIANT Emit
 INVARIANT CountInv
 CHECK_DEADLOCK FALSE
